@@ -28,7 +28,14 @@ pub struct Session {
 
 impl Session {
     pub fn start(bin: &str) -> Result<Session, String> {
-        let mut child = Command::new(bin).stdin(Stdio::piped()).stdout(Stdio::piped()).stderr(Stdio::piped()).spawn().map_err(|e| format!("cannot start {}: {}", bin, e))?;
+        Session::start_env(bin, &[])
+    }
+    pub fn start_env(bin: &str, envs: &[(&str, String)]) -> Result<Session, String> {
+        let mut cmd = Command::new(bin);
+        for (k, v) in envs {
+            cmd.env(k, v);
+        }
+        let mut child = cmd.stdin(Stdio::piped()).stdout(Stdio::piped()).stderr(Stdio::piped()).spawn().map_err(|e| format!("cannot start {}: {}", bin, e))?;
         let out = child.stdout.take().unwrap();
         let err = child.stderr.take().unwrap();
         let (tx, rx) = channel();
@@ -126,7 +133,11 @@ impl Drop for Session {
 
 /// run a whole script (every `go` followed by `wait`, so the output is deterministic), return all stdout lines
 pub fn transcript(bin: &str, lines: &[String], limit: Duration) -> Result<Vec<String>, String> {
-    let mut s = Session::start(bin)?;
+    transcript_env(bin, lines, limit, &[])
+}
+
+pub fn transcript_env(bin: &str, lines: &[String], limit: Duration, envs: &[(&str, String)]) -> Result<Vec<String>, String> {
+    let mut s = Session::start_env(bin, envs)?;
     for l in lines {
         s.send(l)?;
     }
